@@ -1,4 +1,4 @@
-//go:build verif
+//go:build verif && (p_all || p_c08)
 
 package props
 
@@ -6,7 +6,6 @@ import (
 	"bytes"
 	"fmt"
 	"math/big"
-	"sync"
 
 	"github.com/bytemare/secp256k1"
 	"github.com/bytemare/secp256k1/internal/field"
@@ -17,59 +16,9 @@ import (
 
 // C08 — HashToGroup / EncodeToGroup conform to RFC 9380 for every message and DST.
 
-type h2cCase struct {
-	Fn     string `json:"fn"` // H2G | E2G | H2S
-	Msg    string `json:"msg"`
-	Dst    string `json:"dst"`
-	NilMsg bool   `json:"nil_msg,omitempty"`
-	NilDst bool   `json:"nil_dst,omitempty"`
-	Layout string `json:"layout"` // exact | spare1 | spare8 | spare64 | interior
-	Class  string `json:"class"`
-	// Reuse: a sequence of calls whose message / DST are written, one after the other, into the SAME two buffers
-	// (same address, same or different length): what a cache keyed on slice identity cannot tell apart.
-	Reuse []h2cPair `json:"reuse,omitempty"`
-	// Conc: calls executed simultaneously, one goroutine each, on buffers they own.
-	Conc []h2cPair `json:"concurrent,omitempty"`
-	// Uniform (Fn == "pipeline"): chosen expander output (48 or 96 bytes) pushed through the library's own reduction, map
-	// and isogeny steps, i.e. everything of hash_to_curve after the hash. Hashing cannot steer these bytes; choosing them
-	// reaches the thin sets on which the reduction or the map may err.
-	Uniform string `json:"uniform,omitempty"`
-}
 
-type h2cPair struct {
-	Msg string `json:"msg"`
-	Dst string `json:"dst"`
-}
 
-var (
-	h2cMsgLens = []int{0, 1, 2, 31, 32, 33, 54, 55, 56, 57, 63, 64, 65, 118, 119, 120, 121, 127, 128, 129, 255, 256, 1000}
-	h2cDstLens = []int{1, 2, 15, 16, 17, 31, 32, 33, 49, 63, 64, 65, 127, 128, 200, 253, 254, 255, 256, 257, 258, 300, 511, 512, 1000}
-	// DST lengths at which a length kept in 16 (or 8) bits wraps
-	h2cHugeDstLens = []int{65535, 65536, 65537, 65551, 65791, 65792, 131072, 131088, 196863}
-	h2cLayouts = []string{"exact", "spare1", "spare8", "spare64", "interior"}
-)
 
-// layoutSlice places content inside a larger backing array according to the layout name.
-func layoutSlice(content []byte, layout string, fill byte) (s []byte, backing []byte) {
-	pre, spare := 0, 0
-
-	switch layout {
-	case "spare1":
-		spare = 1
-	case "spare8":
-		spare = 8
-	case "spare64":
-		spare = 64
-	case "interior":
-		pre, spare = 13, 29
-	}
-
-	backing = bytes.Repeat([]byte{fill}, pre+len(content)+spare+7)
-	copy(backing[pre:], content)
-	s = backing[pre : pre+len(content) : pre+len(content)+spare]
-
-	return s, backing
-}
 
 func init() {
 	register(&mon.Prop{
@@ -93,119 +42,6 @@ func init() {
 	})
 }
 
-func h2cGenerate(c *mon.Ctx, fns []string, nq, nt int) {
-	pat := func(n int, seed byte) []byte {
-		b := make([]byte, n)
-		for i := range b {
-			b[i] = byte(i*7+3) ^ seed
-		}
-
-		return b
-	}
-
-	k := 0
-
-	for _, ml := range h2cMsgLens {
-		for _, dl := range h2cDstLens {
-			// a sparse but complete-in-each-dimension product
-			if !(ml == 0 || ml == 64 || dl == 16 || dl == 255 || dl == 256 || (ml+dl)%5 == 0) {
-				continue
-			}
-
-			for _, fn := range fns {
-				k++
-				cs := &h2cCase{Fn: fn, Msg: mon.H(pat(ml, 0x11)), Dst: mon.H(pat(dl, 0x5a)), Layout: h2cLayouts[k%len(h2cLayouts)], Class: "lengths"}
-				c.Structured(func() any { return cs })
-			}
-		}
-	}
-
-	for _, fn := range fns {
-		fn := fn
-		big64k := mon.H(pat(65536, 0x77))
-		c.Structured(func() any { return &h2cCase{Fn: fn, Msg: big64k, Dst: mon.H([]byte("verif-64k-message-dst")), Layout: "exact", Class: "msg-64k"} })
-		c.Structured(func() any { return &h2cCase{Fn: fn, NilMsg: true, Dst: mon.H([]byte("verif-nil-message-dst")), Layout: "exact", Class: "nil-msg"} })
-		c.Structured(func() any { return &h2cCase{Fn: fn, Msg: "", Dst: mon.H([]byte("verif-nil-message-dst")), Layout: "spare8", Class: "empty-msg"} })
-		c.Structured(func() any { return &h2cCase{Fn: fn, Msg: "616263", NilDst: true, Layout: "exact", Class: "nil-dst"} })
-		c.Structured(func() any { return &h2cCase{Fn: fn, Msg: "616263", Dst: "", Layout: "exact", Class: "empty-dst"} })
-		c.Structured(func() any { return &h2cCase{Fn: fn, Msg: "616263", Dst: "", Layout: "spare8", Class: "empty-dst"} })
-
-		for _, suite := range []string{"QUUX-V01-CS02-with-secp256k1_XMD:SHA-256_SSWU_RO_", "QUUX-V01-CS02-with-secp256k1_XMD:SHA-256_SSWU_NU_", secp256k1.H2CSECP256K1, secp256k1.E2CSECP256K1} {
-			for _, m := range []string{"", "abc", "abcdef0123456789"} {
-				for _, lay := range h2cLayouts {
-					cs := &h2cCase{Fn: fn, Msg: mon.H([]byte(m)), Dst: mon.H([]byte(suite)), Layout: lay, Class: "suite-dst"}
-					c.Structured(func() any { return cs })
-				}
-			}
-		}
-	}
-
-	for i, dl := range h2cHugeDstLens {
-		for _, fn := range fns {
-			cs := &h2cCase{Fn: fn, Msg: mon.H(pat(i, 0x19)), Dst: mon.H(pat(dl, byte(0x40+i))), Layout: "exact", Class: "huge-dst"}
-			c.Structured(func() any { return cs })
-		}
-	}
-
-	// buffer reuse
-	rr := c.SharedRng("reuse")
-
-	for i := 0; i < 160; i++ {
-		fn := fns[i%len(fns)]
-		dl := []int{16, 49, 255, 256, 300, 1, 32, 600}[i%8]
-		cs := &h2cCase{Fn: fn, Layout: h2cLayouts[i%len(h2cLayouts)], Class: "reuse"}
-
-		for j := 0; j < 3+i%2; j++ {
-			l := dl
-			if i%5 == 4 && j == 1 {
-				l = dl + 1 // a different length in between
-			}
-
-			m := rr.Bytes(8)
-			if j > 0 && i%3 == 0 {
-				m = mon.UnH(cs.Reuse[0].Msg) // same message, only the DST changes
-			}
-
-			cs.Reuse = append(cs.Reuse, h2cPair{Msg: mon.H(m), Dst: mon.H(rr.Bytes(l))})
-		}
-
-		if i%4 == 0 {
-			cs.Reuse = append(cs.Reuse, cs.Reuse[0]) // and back to the first content
-		}
-
-		c.Structured(func() any { return cs })
-	}
-
-	// concurrent batches
-	for b := 0; b < c.N(8, 400); b++ {
-		cs := &h2cCase{Fn: fns[b%len(fns)], Layout: "exact", Class: "concurrent"}
-
-		for g := 0; g < 8; g++ {
-			dl := []int{20, 300, 255, 256, 700, 16, 300, 49}[g]
-			if b%2 == 1 {
-				dl = []int{300, 300, 400, 400, 300, 256, 257, 1000}[g] // several different oversize DSTs at once
-			}
-
-			cs.Conc = append(cs.Conc, h2cPair{Msg: mon.H(rr.Bytes(5 + g)), Dst: mon.H(rr.Bytes(dl))})
-		}
-
-		c.Structured(func() any { return cs })
-	}
-
-	c.Random(c.N(nq, nt), func(r *gen.Rng) any {
-		ml := h2cMsgLens[r.Intn(len(h2cMsgLens))]
-		if r.Bool() {
-			ml = r.Intn(200)
-		}
-
-		dl := h2cDstLens[r.Intn(len(h2cDstLens))]
-		if r.Intn(3) == 0 {
-			dl = 1 + r.Intn(300)
-		}
-
-		return &h2cCase{Fn: fns[r.Intn(len(fns))], Msg: mon.H(r.Bytes(ml)), Dst: mon.H(r.Bytes(dl)), Layout: h2cLayouts[r.Intn(len(h2cLayouts))], Class: "random"}
-	})
-}
 
 func c08Generate(c *mon.Ctx) {
 	h2cGenerate(c, []string{"H2G", "E2G"}, 30000, 3000000)
@@ -273,149 +109,9 @@ func c08RunPipeline(c *mon.Ctx, cs *h2cCase) {
 	c.Seen("pipeline", cs.Uniform)
 }
 
-// h2cInputs materialises the case's slices.
-func h2cInputs(cs *h2cCase, fill byte) (msg, dst, msgBack, dstBack []byte) {
-	if !cs.NilMsg {
-		msg, msgBack = layoutSlice(mon.UnH(cs.Msg), cs.Layout, fill)
-	}
 
-	if !cs.NilDst {
-		dst, dstBack = layoutSlice(mon.UnH(cs.Dst), cs.Layout, fill^0xff)
-	}
 
-	return
-}
 
-// h2cCallBytes runs fn and returns the bytes that identify the result (compressed point or scalar encoding).
-func h2cCallBytes(fn string, m, d []byte) []byte {
-	switch fn {
-	case "H2G":
-		return secp256k1.HashToGroup(m, d).Encode()
-	case "E2G":
-		return secp256k1.EncodeToGroup(m, d).Encode()
-	default:
-		return secp256k1.HashToScalar(m, d).Encode()
-	}
-}
-
-func h2cWant(fn string, m, d []byte) []byte {
-	switch fn {
-	case "H2G":
-		p, _ := oracle.HashToCurve(m, d)
-		return oracle.EncC(p)
-	case "E2G":
-		p, _ := oracle.EncodeToCurve(m, d)
-		return oracle.EncC(p)
-	default:
-		return oracle.Bytes32(oracle.HashToScalar(m, d))
-	}
-}
-
-// h2cRunHistory handles the buffer-reuse and concurrent kinds for all three hashing functions; it reports whether
-// the case was of one of those kinds.
-func h2cRunHistory(c *mon.Ctx, cs *h2cCase) bool {
-	switch {
-	case len(cs.Reuse) > 0:
-		c.Count("reuse-sequences")
-
-		maxM, maxD := 0, 0
-		for _, p := range cs.Reuse {
-			maxM, maxD = max(maxM, len(p.Msg)/2), max(maxD, len(p.Dst)/2)
-		}
-
-		_, mback := layoutSlice(make([]byte, maxM), cs.Layout, 0x5a)
-		_, dback := layoutSlice(make([]byte, maxD), cs.Layout, 0xa5)
-		pre := 0
-		if cs.Layout == "interior" {
-			pre = 13
-		}
-
-		for i, p := range cs.Reuse {
-			mb, db := mon.UnH(p.Msg), mon.UnH(p.Dst)
-			copy(mback[pre:], mb)
-			copy(dback[pre:], db)
-			m := mback[pre : pre+len(mb) : pre+len(mb)]
-			d := dback[pre : pre+len(db) : pre+len(db)]
-
-			c.Eval(1)
-			c.Count("reuse-calls")
-
-			var got []byte
-
-			if pan, pv := mon.Call(func() { got = h2cCallBytes(cs.Fn, m, d) }); pan {
-				c.Fail(fmt.Sprintf("%s panicked at call %d of a buffer-reuse sequence: %v", cs.Fn, i, pv), "h2c-reuse-panic", nil)
-				return true
-			}
-
-			if want := h2cWant(cs.Fn, mb, db); !bytes.Equal(got, want) {
-				c.Fail(fmt.Sprintf("%s: call %d of a sequence that rewrites the same message/DST buffers in place (msg[%d], dst[%d]) returned %s, RFC 9380 value is %s", cs.Fn, i, len(mb), len(db), mon.H(got), mon.H(want)),
-					"h2c-buffer-reuse:"+cs.Fn, map[string]any{"call": i})
-				return true
-			}
-		}
-
-		c.Seen(cs.Fn, cs.Reuse, cs.Layout)
-
-		return true
-	case len(cs.Conc) > 0:
-		c.Count("concurrent-batches")
-
-		type job struct {
-			m, d, want, got []byte
-			pan             any
-		}
-
-		jobs := make([]*job, len(cs.Conc))
-		for i, p := range cs.Conc {
-			jobs[i] = &job{m: mon.UnH(p.Msg), d: mon.UnH(p.Dst)}
-			jobs[i].want = h2cWant(cs.Fn, jobs[i].m, jobs[i].d)
-		}
-
-		start := make(chan struct{})
-
-		var wg sync.WaitGroup
-
-		for _, j := range jobs {
-			wg.Add(1)
-
-			go func(j *job) {
-				defer wg.Done()
-				defer func() { j.pan = recover() }()
-				<-start
-
-				for rep := 0; rep < 20; rep++ {
-					j.got = h2cCallBytes(cs.Fn, j.m, j.d)
-					if !bytes.Equal(j.got, j.want) {
-						return
-					}
-				}
-			}(j)
-		}
-
-		close(start)
-		wg.Wait()
-
-		for i, j := range jobs {
-			c.Eval(20)
-
-			if j.pan != nil {
-				c.Fail(fmt.Sprintf("%s panicked when %d goroutines hashed simultaneously on their own buffers: %v", cs.Fn, len(jobs), j.pan), "h2c-concurrent-panic", nil)
-				return true
-			}
-
-			if !bytes.Equal(j.got, j.want) {
-				c.Fail(fmt.Sprintf("%s wrong when %d goroutines hash simultaneously on buffers they own (job %d, dst[%d]): %s, RFC 9380 value is %s", cs.Fn, len(jobs), i, len(j.d), mon.H(j.got), mon.H(j.want)), "h2c-concurrent-value:"+cs.Fn, nil)
-				return true
-			}
-		}
-
-		c.Seen(cs.Fn, cs.Conc)
-
-		return true
-	}
-
-	return false
-}
 
 func c08Run(c *mon.Ctx, csAny any) {
 	cs := csAny.(*h2cCase)
